@@ -276,33 +276,30 @@ def check_merge_dispatch(ctx: Ctx):
     fv = view(m, fi)
     site = fi.qualname
     other = fi.params[1] if len(fi.params) > 1 else "other"
-    calls = [c for c in fv.calls() if isinstance(c.func, ast.Attribute) and c.func.attr == "_merge_data"]
-    if len(calls) != 2:
-        ctx.violate("SIBLING", site, fi, f"expected the in-place and the copy branch to call self._merge_data once each; found {len(calls)} call(s)")
-        return
-    from ..astutil import stmt_index, symbolic_paths, truth_of, value_cases
+    from ..astutil import specialize, count_on_normal_paths
 
-    si = stmt_index(fv)
-    branch = {}
-    for c in calls:
-        pols = {truth_of(dec, "inplace") for dec, _ in symbolic_paths(fv, c, [c.args[0]])}
-        if len(pols) == 1:
-            branch[pols.pop()] = c
-    if set(branch) != {True, False}:
-        ctx.violate("SIBLING", site, fi, "the two kernel calls are not the two arms of the `inplace` test")
+    # the method is analysed once for inplace=True and once for inplace=False (the flag's tests folded away)
+    if "inplace" not in fi.all_params:
+        ctx.violate("SIBLING", site, fi, "merge has no `inplace` flag")
         return
-    a, b = branch[True], branch[False]
-    exa = [U(fv.expand(x, a, stop=("self", other))) for x in a.args[:2]]
-    exb = [U(fv.expand(x, b, stop=("self", other))) for x in b.args[:2]]
+    fiT, fvT = specialize(m, fi, {"inplace": True})
+    fiF, fvF = specialize(m, fi, {"inplace": False})
+    callsT = [c for c in fvT.calls() if isinstance(c.func, ast.Attribute) and c.func.attr == "_merge_data"]
+    callsF = [c for c in fvF.calls() if isinstance(c.func, ast.Attribute) and c.func.attr == "_merge_data"]
+    if len(callsT) != 1 or len(callsF) != 1:
+        ctx.violate("SIBLING", site, fi, f"expected the in-place and the copy branch to call self._merge_data once each; found {len(callsT)} call(s) for inplace=True and {len(callsF)} for inplace=False")
+        return
+    a, b = callsT[0], callsF[0]
+    exa = [U(fvT.expand(x, a, stop=("self", other))) for x in a.args[:2]]
+    exb = [U(fvF.expand(x, b, stop=("self", other))) for x in b.args[:2]]
     same = U(a.func) == U(b.func) and exa == exb and len(a.args) == len(b.args)
     opnds = exa == ["self.data", f"{other}.data"]
     ctx.decide(same and opnds, "SIBLING", site + ":kernel", (fi, a), "both branches call self._merge_data(self.data, other.data, out=…)",
                f"branches differ: {U(a)} vs {U(b)}")
     # in-place: out is self.data, returns self
     oa = arg_or_kw(a, 2, "out")
-    rets = [n.stmt for n in fv.return_nodes()]
-    ret_in = [r for r in rets if {truth_of(dec, "inplace") for dec, _ in symbolic_paths(fv, r, [r.value])} == {True}]
-    ok = oa is not None and U(fv.expand(oa, a, stop=("self", other))) == "self.data" and len(ret_in) == 1 and U(ret_in[0].value) == "self"
+    ret_in = [n.stmt for n in fvT.return_nodes()]
+    ok = oa is not None and U(fvT.expand(oa, a, stop=("self", other))) == "self.data" and len(ret_in) == 1 and ret_in[0].value is not None and U(fvT.expand(ret_in[0].value, ret_in[0], stop=("self", other))) == "self"
     ctx.decide(ok, "SIBLING", site + ":inplace", (fi, a), "in-place branch writes into self.data and returns self",
                f"in-place branch: out={U(oa) if oa is not None else None}")
     # copy branch: out fresh, returned object built from it
@@ -310,17 +307,18 @@ def check_merge_dispatch(ctx: Ctx):
     fresh = False
     detail = ""
     if isinstance(ob, ast.Name):
-        r = fv.single_def_value(ob.id, b)
+        r = fvF.single_def_value(ob.id, b)
         if r is not None:
             val = r[0]
             detail = U(val)
             fresh = isinstance(val, ast.Call) and not _aliases(val, {"self", other})
-    ret_cp = [r for r in rets if r not in ret_in]
+    ret_cp = [n.stmt for n in fvF.return_nodes()]
     built = False
-    if len(ret_cp) == 1 and isinstance(ret_cp[0].value, ast.Call) and isinstance(ob, ast.Name):
-        rc = ret_cp[0].value
-        built = isinstance(rc.func, ast.Attribute) and rc.func.attr == "from_data" and any(isinstance(x, ast.Name) and x.id == ob.id for x in rc.args)
-        built = built and U(rc.func.value) in ("self.__class__", "type(self)", "self")
+    if len(ret_cp) == 1 and isinstance(ob, ast.Name) and ret_cp[0].value is not None:
+        rc = fvF.expand(ret_cp[0].value, ret_cp[0], stop=("self", other, ob.id))
+        if isinstance(rc, ast.Call):
+            built = isinstance(rc.func, ast.Attribute) and rc.func.attr == "from_data" and any(isinstance(x, ast.Name) and x.id == ob.id for x in rc.args)
+            built = built and U(rc.func.value) in ("self.__class__", "type(self)", "self")
     ctx.decide(fresh and built, "EFFECT", site + ":copy", (fi, b),
                "out-of-place branch merges into a fresh record and returns a new droplet of the same class built from it",
                f"out-of-place branch: out ← {detail or U(ob) if ob is not None else None}; fresh={fresh}, returned-from-out={built}")
